@@ -272,10 +272,16 @@ PROPS = {
     "C09": {
         "run": ["EvalProps"], "functional": False,
         "n": {"quick": 300, "thorough": 6000},
-        "level_text": "Theorems: cohort merge is field-wise (present, even empty, replaces; absent keeps); apps not named are unchanged, named apps take the first naming response's cohort merge and day number; ids stable.  The remaining clauses are decided by trace equality between the state-machine model (Model/SM.v, whose traces are the subject of the "
-                      "monitor theorems of C02/C05/C06/C07) and the real state machine on the property's projection of the trace: request bodies (cohort fields, ad/rd), per-app storage writes, the apps shown to the policy.",
-        "level_note": "PARTIAL at the level of theorems (stated in Props/C09.v): 'only on success', 'next request sends exactly these values' and 'committed with the result' are not yet theorems.  Model = code is sampled on scripted runs.",
-        "diff_meaning": "The implementation's projection of the trace differs from the model's on this scripted environment (or it panicked / hung).",
+        "level_text": "Theorems: (1) cohort merge is field-wise (present, even empty, replaces; absent keeps); apps not named are unchanged, named apps take the first naming response's cohort merge and day number; "
+                      "(2) restart: the value written for an app reads back exactly (every cohort of UTF-8 strings, every u32 date) and App::load restores it into every field left unset (C09_stored_value_reads_back, "
+                      "C09_restart_fills_unset_fields); (3) C09_monitor_accepts_every_model_trace: for every script, configuration, app set, stored state and entry point the model's trace is accepted by the "
+                      "executable monitor step9, which keeps the app set as it must currently be (changed only by a successful check's result and a successful ping's document) and demands that every request "
+                      "carries the current cohort and ping dates, that the policy is always shown the current app set, and that right after a result / a successful ping every app is written with exactly its "
+                      "current persisted form, in order, and committed before anything else.  Model tied to the code by trace equality on scripted runs (requests, per-app storage writes, apps shown to the policy); "
+                      "the monitor also runs on every implementation trace.",
+        "level_note": "Proved for the model, unbounded.  The request clause is proved in the form 'the cohort and dates of an app of the set with that id' (app sets with duplicate ids are not distinguished).  "
+                      "Model = code is sampled on scripted runs; the stored-value decoder is modelled for the object form serde writes.",
+        "diff_meaning": "The monitor rejects the implementation's trace (code 2), or the request / storage / policy projection differs from the model's.",
         "rule": "random histories of responses carrying every subset of the three cohort fields (present-empty vs absent), any daystart, any subset of a 1-3 app set, failed checks, pings, stored PersistedApp values incl. malformed ones; distinct = distinct implementation trace; non-trivial = at least one request or completed check",
         "assumptions": ["harness trait implementations follow the trait contracts", "Storage trait contract: writes cached until commit, commit atomic"],
         "trusted_base": COMMON_TB + ["modelled, not verified: state_machine.rs, update_check.rs, builder.rs, app_set.rs, common.rs"],
